@@ -418,7 +418,10 @@ impl BinArchive {
 
     pub fn read_bytes(&self, address: usize, amount: usize) -> Result<&[u8]> {
         validate_address(address, self.size(), false)?;
-        validate_address(address + amount, self.size(), true)?;
+        let end = address
+            .checked_add(amount)
+            .ok_or(ArchiveError::OutOfBoundsAddress(address, self.size()))?;
+        validate_address(end, self.size(), true)?;
         Ok(&self.data[address..(address + amount)])
     }
 
@@ -629,7 +632,10 @@ impl BinArchive {
 
     pub fn deallocate(&mut self, address: usize, amount_in_bytes: usize, ge: bool) -> Result<()> {
         validate_address(address, self.size(), false)?;
-        validate_address(address + amount_in_bytes, self.size(), true)?;
+        let end = address
+            .checked_add(amount_in_bytes)
+            .ok_or(ArchiveError::OutOfBoundsAddress(address, self.size()))?;
+        validate_address(end, self.size(), true)?;
         validate_alignment(address, 4)?;
         validate_alignment(amount_in_bytes, 4)?;
         self.data.drain(address..(address + amount_in_bytes));
